@@ -2,12 +2,13 @@
 from __future__ import annotations
 
 import ast
+import re
 
 from .. import lib, shape
 from ..flow import Defs, call_name, norm
 from ..index import AnalysisError, walk_local
 from ..lib import cfg_of, defs_of, edge_leads_only_to_raise, live, nodes_with, witness
-from .C07 import _flow_into, _m, _reaches, _rm, exponent_sign_sets, plus_minus_sign_rewritten
+from .C07 import _flow_into, _m, _reaches, _rm, exponent_sign_sets, plus_minus_sign_rewritten, tokenizer_helpers
 from .C09 import interface_rule
 
 MO = "pint.facets.measurement.objects"
@@ -177,24 +178,30 @@ def run(ck, ix, tier):
     # ------------------------------------------------------------ tokenizer
     tok = ix.func(PE, "uncertainty_tokenizer")
     ck.analysed(tok)
-    helpers = {g.name: g for g in pe.all_functions if g.parent is tok}
-    ae = helpers.get("_apply_e_notation")
-    if ae is None:
-        raise AnalysisError("_apply_e_notation not found")
+    roles = tokenizer_helpers(ix)             # nested helpers by role (their names are local names)
+    ae, fe = roles["apply"], roles["consumer"]
+    ap = [a.arg for a in ae.node.args.args]
+    if len(ap) != 2:
+        raise AnalysisError("the exponent-folding helper of uncertainty_tokenizer no longer takes (mantissa, exponent)")
+    mant, expo = ap
     cfg = cfg_of(ae)
-    # the set of conditions under which the exponent is skipped, however they are spelled (two ifs, one `or`, operand order, ...)
+    # the set of conditions under which the exponent is skipped, however they are spelled (two ifs, one `or`, operand order, ...);
+    # reported with the canonical parameter names (mantissa, exponent)
+    canon_names = lambda t: re.sub(rf"\b{re.escape(expo)}\b", "exponent", re.sub(rf"\b{re.escape(mant)}\b", "mantissa", t))
     def canon(a):
         if isinstance(a, ast.Compare) and len(a.ops) == 1 and isinstance(a.ops[0], ast.Eq) and isinstance(a.left, ast.Constant) and not isinstance(a.comparators[0], ast.Constant):
-            return f"{norm(a.comparators[0])} == {norm(a.left)}"
-        return norm(a)
+            return canon_names(f"{norm(a.comparators[0])} == {norm(a.left)}")
+        return canon_names(norm(a))
     tests = sorted({canon(a) for n in cfg.nodes if n.kind == "test" for lab in ("t", "f") for a, _ in shape.conjuncts(n.ast, lab) if not isinstance(a, ast.BoolOp)})
     ck.check(tests == ["float(mantissa.string) == 0.0", "mantissa.string == 'nan'"], "G-PROV", "_apply_e_notation|exponent-skipped-only-for-nan-and-zero", ae.loc(),
              "the common exponent is skipped only for nan and for a mantissa equal to zero", f"the guards of _apply_e_notation are {tests}: a mantissa like 0.030 must receive the common exponent (only nan and zero are exempt)")
-    ck.check(lib.has(ix, ae, "tokenize.TokenInfo(string=f'{mantissa.string}{exponent.string}', **_K)"), "G-PROV", "_apply_e_notation|mantissa-followed-by-exponent", ae.loc(), "token text = mantissa + exponent", "the combined token is no longer mantissa followed by exponent")
-    fe = helpers.get("_finalize_e")
-    # what _finalize_e returns is (value with the exponent applied, error with the same exponent applied)
+    ck.check(lib.has(ix, ae, "tokenize.TokenInfo(string=f'{%s.string}{%s.string}', **_K)" % (mant, expo)), "G-PROV", "_apply_e_notation|mantissa-followed-by-exponent", ae.loc(), "token text = mantissa + exponent", "the combined token is no longer mantissa followed by exponent")
+    # what the consumer returns is (its first argument with the exponent applied, its second argument with the same exponent
+    # applied), the exponent being one of its parameters
+    fp = [a.arg for a in fe.node.args.args]
     rets = shape.returns_of(fe.node)
-    ck.check(bool(rets) and all(_rm(r.value, fe.node, "(_apply_e_notation(nominal_value, possible_e), _apply_e_notation(std_dev, possible_e))") is not None for r in rets), "G-TWIN", "_finalize_e|exponent-applied-to-value-and-error", fe.loc(), "the common exponent is applied to both value and error", "the common exponent is not applied to both the nominal value and the standard deviation")
+    both = lambda r: (lambda b: b is not None and b["_E"] in fp[2:])(_rm(r.value, fe.node, f"({ae.name}({fp[0]}, _E), {ae.name}({fp[1]}, _E))")) if len(fp) >= 3 else False
+    ck.check(bool(rets) and all(both(r) for r in rets), "G-TWIN", "_finalize_e|exponent-applied-to-value-and-error", fe.loc(), "the common exponent is applied to both value and error", "the common exponent is not applied to both the nominal value and the standard deviation")
     sets = exponent_sign_sets(ix)
     ok = all(v == ["+", "-"] for vs in sets.values() for v in vs) and len(sets) == 2
     ck.check(ok, "G-TWIN", "uncertainty_tokenizer|exponent-sign-sets-agree", tok.loc(), "look-ahead and consumer accept {+, -}", f"sign sets differ: {sets}")
